@@ -131,7 +131,7 @@ class Report:
 
     # ---- the deciding step ---------------------------------------------------------
     def prove(self, label, goal, constraints, timeout_ms=30000, tactic=None, inputs=None, replay=None,
-              regions=None, sample=None, linearize=False, quick_ms=4000, rounds=3, lemmas=None, soft=False):
+              regions=None, sample=None, linearize=False, quick_ms=4000, rounds=3, lemmas=None, soft=False, perturb=None, retries=4):
         """Ask the solver for a counterexample to `goal` under `constraints`.
 
         inputs(model) -> JSON-able concrete inputs; replay(inputs) -> (bool reproduced, detail)
@@ -148,7 +148,8 @@ class Report:
             self._item(f"{label}:lemma:{lname}", "lemma", lv)
             if lv.status == "unsat":
                 constraints.append(lem)
-        for _round in range(1 + len(self.known)):
+        tries_left = retries if perturb else 0
+        for _round in range(1 + len(self.known) + tries_left):
             if linearize:
                 # ring identity under polynomial equality hypotheses: the degree-bounded linearisation decided in
                 # linear arithmetic (symx/poly.py) first; if it is inconclusive, nlsat (finds counterexamples)
@@ -193,6 +194,25 @@ class Report:
                 except Exception as e:  # noqa: BLE001
                     reproduced, detail = False, f"replay raised {type(e).__name__}: {e}"
             it["replay"] = {"reproduced": reproduced, "detail": _jsonable(detail)}
+            if not reproduced and tries_left > 0:
+                # the candidate may sit exactly on a decision boundary (where rounding decides the real run): draw another one away from it
+                from fractions import Fraction
+
+                tries_left -= 1
+                far = []
+                for var in perturb:
+                    val = v.model.eval(var, model_completion=True)
+                    try:
+                        q = Fraction(val.as_fraction()) if z3.is_rational_value(val) else Fraction(val.approx(20).as_fraction())
+                    except Exception:  # noqa: BLE001
+                        continue
+                    delta = max(Fraction(1), abs(q)) / 1000
+                    far.append(z3.Or(var - z3.RealVal(str(q)) >= z3.RealVal(str(delta)), z3.RealVal(str(q)) - var >= z3.RealVal(str(delta))))
+                if far:
+                    it["verdict_note"] = "candidate did not reproduce; another one is drawn away from it"
+                    it["kind"] = "candidate"
+                    extra.append(z3.And(*far))
+                    continue
             if not reproduced:
                 if soft:
                     # the query ran on a deliberate over-approximation (abstracted pre-state): a candidate the real code does not confirm leaves the item undecided
